@@ -22,7 +22,9 @@ ASSUMPTIONS = ["str.format features beyond {name}, {{ and }} (conversions, forma
 
 VALUES = ["foo", "", "{OTHER}", "*", "a b", "[x]", "é", "{{", "}", "sub/bar", "exit0"]
 NAMES_OK = ["A", "OTHER", "x_1", "a-b", "Z9"]
-NAMES_BAD = ["", "a b", "é", "a.b", "a!"]
+# (names that differ from a valid one only by white space at either end: `$` in a regular expression also matches before
+#  a final newline, `match` is not `fullmatch`, and a name read from a file may carry its line end)
+NAMES_BAD = ["", "a b", "é", "a.b", "a!", "A\n", "OTHER\n", "\nA", "A\r\n", "A ", " A", "A\t", "A\nB", "\n", "x_1\n\n", "\uff21", "A\u0661"]
 
 
 def py_render(template, params):
